@@ -11,6 +11,7 @@ import (
 	"fmt"
 	"math/rand"
 	"sort"
+	"sync/atomic"
 	"time"
 
 	"google.golang.org/grpc/codes"
@@ -45,6 +46,7 @@ type regTunnel struct {
 	key           string // "<nil>" for the nil key
 	rs            *grpctunnel.ReverseTunnelServer
 	open          bool
+	closing       atomic.Bool // set before the scenario does anything that ends the tunnel
 	serve         *ServeResult
 	cancel        context.CancelFunc
 	link          *Link
@@ -66,6 +68,28 @@ func famRegistry(w *World, c *Case, rng *rand.Rand) {
 			id := ""
 			if v := md.Get("x-ident"); len(v) > 0 {
 				id = v[0]
+			}
+			// the open callback announces the tunnel: at that moment (the callback may take as long as
+			// it likes - greet the new peer with an RPC addressed by its key, say) every view has it
+			w.mu.Lock()
+			mt := tun[id]
+			w.mu.Unlock()
+			if hdl := w.Handler; hdl != nil && mt != nil && !mt.closing.Load() {
+				inAll := false
+				for _, x := range hdl.AllReverseTunnels() {
+					if x == ch {
+						inAll = true
+					}
+				}
+				byKey := hdl.KeyAsChannel(AffinityFromMD(ch)).Ready()
+				all := hdl.AsChannel().Ready()
+				// (judged only if the scenario had not begun to end this tunnel, before or during the look)
+				if !mt.closing.Load() {
+					if !inAll || !byKey || !all {
+						w.Violate("C12", "announced-tunnel-not-in-every-view", "tunnel %s: inside its open callback AllReverseTunnels lists it: %v, KeyAsChannel(its key).Ready(): %v, AsChannel().Ready(): %v", id, inAll, byKey, all)
+					}
+					w.Stat("registry_open_callback_view_checks", 1)
+				}
 			}
 			w.mu.Lock()
 			if t := tun[id]; t != nil {
@@ -300,6 +324,7 @@ func famRegistry(w *World, c *Case, rng *rand.Rand) {
 			}
 		case op == 3: // client end stops
 			if t != nil && t.open {
+				t.closing.Store(true)
 				go t.rs.Stop()
 				t.open = false
 				where += " stop " + t.ident
@@ -307,6 +332,7 @@ func famRegistry(w *World, c *Case, rng *rand.Rand) {
 			}
 		case op == 4: // server end closes the channel
 			if t != nil && t.open && t.ch != nil {
+				t.closing.Store(true)
 				t.ch.Close()
 				t.open = false
 				where += " server-close " + t.ident
@@ -314,6 +340,7 @@ func famRegistry(w *World, c *Case, rng *rand.Rand) {
 			}
 		case op == 5: // transport breaks
 			if t != nil && t.open && t.link != nil {
+				t.closing.Store(true)
 				t.link.Break()
 				t.open = false
 				where += " break " + t.ident
@@ -321,6 +348,7 @@ func famRegistry(w *World, c *Case, rng *rand.Rand) {
 			}
 		case op == 6: // opener's context cancelled
 			if t != nil && t.open {
+				t.closing.Store(true)
 				t.cancel()
 				t.open = false
 				where += " ctx-cancel " + t.ident
@@ -333,6 +361,7 @@ func famRegistry(w *World, c *Case, rng *rand.Rand) {
 				startServe(t)
 				if t.link != nil {
 					time.Sleep(time.Duration(rng.Intn(800)) * time.Microsecond)
+					t.closing.Store(true)
 					t.link.Break()
 				}
 				t.open = false
